@@ -353,3 +353,86 @@ REG['C15'] = Spec('C15', c15_jobs, tags=['C15', 'C01'], memsafe=True, explanatio
     'Instrumented iterators over a harness-owned array: every dereference / increment / comparison goes through hooks that keep one stream cursor. Input category (strict): a copy whose snapshot is older than the cursor must never be '
     'dereferenced, incremented or compared; nothing at or beyond last; at the end every position was dereferenced exactly once and incremented exactly once and the cursor is at last. Forward / random-access: never advanced or read at or past last. '
     'Generator constructor: called exactly count times, i-th value in slot i. Results equal the sequence model (hence the random-access result). Constructors from count / value / initializer_list are included.')
+
+# ---------------------------------------------------------------- C16: comparisons and non-member functions
+from .jobs import cmp_job
+def c16_jobs(tier):
+    js = []
+    stds = ['c++17', 'c++20'] if tier == 'quick' else ['c++11', 'c++14', 'c++17', 'c++20', 'c++23']
+    for std in stds:
+        for el in ['int', 'Tv'] + (['Tr'] if tier != 'quick' or std == 'c++20' else []):
+            for (na, nb, ca, cb) in ([(2, 2, 4, 4), (2, 3, 2, 4), (0, 2, 3, 2)] if tier == 'quick' else [(2, 2, 4, 4), (2, 2, 2, 2), (2, 3, 2, 4), (3, 2, 4, 2), (0, 2, 3, 2), (0, 0, 4, 4), (2, 0, 2, 4)]):
+                js.append(cmp_job(0, el, na, nb, ca, cb, std=std))
+        js.append(cmp_job(0, 'int', 2, 3, 4, 4, std=std, extra_clang=['-DGCH_DISABLE_CONCEPTS'], tag='-noconcepts') if std in ('c++20', 'c++23') else None)
+    for std in stds[-2:]:
+        for el in ['int', 'Tr']:
+            js.append(cmp_job(1, el, 2, 0, 4, 4, std=std)); js.append(cmp_job(3, el, 2, 0, 4, 4, std=std)); js.append(cmp_job(1, el, 2, 3, 2, 3, std=std)); js.append(cmp_job(3, el, 2, 3, 2, 3, std=std))
+            js.append(cmp_job(2, el, 2, 2, 4, 2, std=std)); js.append(cmp_job(2, el, 0, 0, 3, 0, std=std)); js.append(cmp_job(2, el, 2, 3, 2, 4, std=std))
+    return _nn(js)
+REG['C16'] = Spec('C16', c16_jobs, tags=['C16'], memsafe=True, explanation=
+    'Two containers (same and different inline capacity, inline and heap) with symbolic lengths <= capacity and unconstrained 32-bit contents: each of == != < <= > >= (and <=> at C++20/23, with and without concepts) '
+    'equals a reference lexicographic comparison written in the harness; element types with operator<=> (int) and with only == and < (weak-order fallback). erase / erase_if: contents, order and returned count vs a model; '
+    'non-member begin..crend, size, ssize, empty, data, swap agree with the members. All values, not a small alphabet: the solver decides for every pair of contents within the length bound.',
+    bounds=lambda tier: {'lengths': '<= 4 per container', 'element_values': 'all 2^32', 'standards': 'C++17 and C++20 (quick); C++11..23 (thorough)'})
+
+# ---------------------------------------------------------------- C18: noexcept / trait contract
+from .jobs import nx_job
+def c18_jobs(tier):
+    js = []
+    for std in (['c++11', 'c++17', 'c++20'] if tier == 'quick' else ['c++11', 'c++14', 'c++17', 'c++20', 'c++2b']):
+        js.append(nx_job(std))
+    js.append(nx_job('c++20', extra_clang=['-DGCH_DISABLE_CONCEPTS'], tag='-noconcepts'))
+    EX = ['normal return', 'exceptional exit']
+    # (a) truthfulness: faults at every element / allocation throw point, std::terminate must be unreachable;
+    #     operations that are not noexcept must deliver the exception (witness)
+    for op in ['move_ctor', 'move_assign', 'assign_move', 'swap']:
+        for (na, nb, ca, cb) in ([(0, 0, 0, 2), (2, 2, 2, 4), (2, 2, 4, 2)] if tier == 'quick' else SAME_CELLS):
+            for (afl, ideq) in ([(0, 1), (0, 0), (A_IAE, 0)] if tier == 'quick' else [(0, 1), (0, 0), (A_IAE, 0), (A_POCMA | A_POCS, 0)]):
+                if op == 'move_ctor' and (afl, ideq) != (0, 1): continue
+                if tier == 'quick' and op == 'swap' and (ca, cb) == (4, 2) and (afl, ideq) != (0, 0): continue
+                js.append(two_job(op, 'TrX', na, nb, ca, cb, afl=afl, ideq=ideq, fmask=J.K_ALL, sizea=(2 if op == 'swap' and ca >= 2 else None)))
+    for op in ['move_ctor', 'assign_move']:
+        js.append(two_job(op, 'TrX', 3, 2, 3, 2, fmask=J.K_ALL, witness=EX, sizea=(1 if op == 'assign_move' else None))); js.append(two_job(op, 'TrX', 2, 3, 2, 3, fmask=J.K_ALL, witness=EX, sizea=(1 if op == 'assign_move' else None)))
+    for op in ['push_back_c', 'insert_c', 'resize_v', 'reserve', 'emplace_back']:
+        js.append(ops_job(op, 'TrX', 2, 4, fmask=J.K_ALL, witness=FAULT_W))
+    for op in ['ctor_range', 'assign_range', 'insert_range', 'append_range']:
+        for itk in (1, 2):
+            js.append(rng_job(op, 'int', 2, 2 if op == 'ctor_range' else 4, itk=itk, fmask=K_ITER, witness=EX))
+        js.append(rng_job(op, 'int', 2, 2 if op == 'ctor_range' else 4, itk=0, fmask=K_ITER, lenfix=2, witness=EX))
+    js.append(rng_job('ctor_gen', 'int', 2, 2, fmask=J.K_GEN, witness=EX))
+    js.append(rng_job('ctor_count_val', 'Tr', 2, 2, fmask=J.K_ALL, witness=EX)); js.append(rng_job('ctor_il', 'Tr', 2, 2, fmask=J.K_ALL, witness=EX))
+    return _nn(js)
+REG['C18'] = Spec('C18', c18_jobs, tags=['C18'], compile_failure_is_violation=True, explanation=
+    '(a) truthfulness, decided by the solver: with faults injected at every allocation, element constructor/assignment, iterator operation and generator call (throw point = solver variable) std::terminate must be unreachable, '
+    'i.e. nothing declared noexcept has a throwing path beneath it, and operations that are not noexcept deliver the injected exception to the caller (reachability witness). Grid: throwing-move element type, N in {0,2}, '
+    'source capacity <,==,> destination, plain/unequal/always-equal/propagating allocators. (b) exactness of the declared conditions and the iterator / nested-type traits: compile-time constants evaluated by the C++ front end for '
+    '8 element-trait combinations x N in {0,2} x 6 allocators at each language standard; the harness writes the documented formula next to noexcept(expr) and cbmc only compares the two constants (front-end decided; no more weight than a static_assert grid).',
+    bounds=lambda tier: {'trait_grid': '{nothrow/throwing move ctor, move assign, swap} x N in {0,2} x {std::allocator, plain, always-equal, POCMA, POCS, POCMA+POCS}', 'standards': 'C++11/17/20 quick, C++11..23 thorough'})
+
+# ---------------------------------------------------------------- C17: standard-independence
+STDS = ['c++11', 'c++14', 'c++17', 'c++20', 'c++2b']
+def c17_jobs(tier):
+    js = []
+    variants = [(s, (), '') for s in STDS] + [('c++20', ('-DGCH_DISABLE_CONCEPTS',), '-noconcepts')]
+    for (std, xc, tg) in variants:
+        ops = ['insert_n', 'push_back_c', 'emplace_back', 'erase_range', 'resize_v', 'assign_range', 'shrink', 'at', 'insert_il', 'append_range', 'reserve'] if tier == 'quick' else OPS_ALL
+        for op in ops:
+            for (n, cap) in ([(2, 4)] if tier == 'quick' else [(2, 2), (2, 4), (0, 2)]):
+                js.append(ops_job(op, 'int', n, cap, std=std, extra_clang=xc, tag=tg))
+        for op in (['insert_n', 'push_back_c'] if tier == 'quick' else ['insert_n', 'push_back_c', 'resize_v', 'erase_range', 'assign_n', 'insert_c']):
+            js.append(ops_job(op, 'Tr', 2, 4, std=std, extra_clang=xc, tag=tg))
+        js.append(ops_job('push_back_c', 'TrX', 2, 4, fmask=J.K_ALL, std=std, extra_clang=xc, tag=tg, witness=FAULT_W))
+        for op in ['move_assign', 'copy_assign', 'swap', 'move_ctor', 'assign_move']:
+            js.append(two_job(op, 'int', 2, 2, 2, 4, std=std, extra_clang=xc, tag=tg))
+            js.append(two_job(op, 'int', 2, 2, 4, 4, afl=A_IAE, ideq=0, std=std, extra_clang=xc, tag=tg))
+        js.append(two_job('assign_move', 'int', 2, 3, 2, 5, std=std, extra_clang=xc, tag=tg))
+        js.append(cmp_job(0, 'int', 2, 3, 4, 4, std=std, extra_clang=xc, tag=tg)); js.append(cmp_job(0, 'Tv', 2, 2, 4, 4, std=std, extra_clang=xc, tag=tg))
+        js.append(cmp_job(1, 'int', 2, 0, 4, 4, std=std, extra_clang=xc, tag=tg)); js.append(cmp_job(2, 'int', 2, 2, 4, 2, std=std, extra_clang=xc, tag=tg))
+        js.append(rng_job('ctor_range', 'int', 2, 2, itk=3, std=std, extra_clang=xc, tag=tg) if False else None)
+    return _nn(js)
+REG['C17'] = Spec('C17', c17_jobs, tags=['C01', 'C02', 'C03', 'C04', 'C05', 'C07', 'C09', 'C10', 'C14', 'C16'], level='translation_validation', compile_failure_is_violation=True, explanation=
+    'The same harness configurations are compiled as C++11, 14, 17, 20 and 23 (and C++20 with GCH_DISABLE_CONCEPTS) and each build is decided by the solver against the SAME sequence model / reference comparison / steal conditions: '
+    'any two standards therefore agree on every observable (contents, sizes, capacities, return values, exceptions) for all inputs within the bound. Only clang can feed the IR pipeline; the GCC half of the property is outside the claim '
+    '(the native replay/validation binaries are also built with g++, which is sampling and is not counted).',
+    bounds=lambda tier: {'standards': STDS + ['c++20 -DGCH_DISABLE_CONCEPTS'], 'compiler': 'clang++-14 only (GCC code cannot be encoded: no IR)'},
+    level_text='translation-validation style: each language-standard build of the same program is decided (bounded, by cbmc) equivalent to one common model, hence to each other')
